@@ -25,6 +25,7 @@ def check(chk, thorough=False):
     chk.run('C20.b', 'R-LINEAR', 'one bundle PDU iff there is no MTU or the data is within mtu - message header size', lambda ob: c20b(tree, ob), floor=2)
     chk.run('C20.c', 'R-GUARD+R-LINEAR', 'segments tile from 0 by step = mtu - len(head with length hint) - transfer header size; only the last is TransferEnd; indices count from 0 by 1; step > 0 guaranteed', lambda ob: c20c(tree, ob), floor=5)
     chk.run('C20.d', 'R-ORDER', 'a transfer is queued only when the received indices equal [0,end]; data is concatenated in index order; repeats are ignored; keyed by (channel, transfer number)', lambda ob: c20d(tree, ob), floor=5)
+    chk.run('C20.f', 'R-FLOW', 'a queued bundle is measured at its end and sent from its start; received items get local ids; the channel key names every field of the channel once', lambda ob: c20f(tree, ob), floor=4)
     chk.run('C20.e', 'R-TRUTH', 'the end index is tested with "is not None": zero is a legitimate end index', lambda ob: c20e(tree, ob), floor=1)
 
 
@@ -234,6 +235,35 @@ def c20d(tree, ob):
     e = one(ends, 'end index record', ob)
     if src(e.value) != 'msg.payload.seg_idx' or not fv.has(e, 'isinstance(msg.payload, TransferEnd)', True):
         ob.violate(BAGENT, QR, src(e), 'the end index is not the index of the TransferEnd segment', e)
+
+
+def channel_key(tree, ob, rel, clsname):
+    ''' The key of a channel / conversation dataclass must distinguish every field: astuple(self) or a tuple naming
+    each declared field exactly once. '''
+    cls = tree.klass(rel, clsname)
+    flds = [n.target.id for n in cls.body if isinstance(n, ast.AnnAssign) and isinstance(n.target, ast.Name) and 'ClassVar' not in src(n.annotation)]
+    key = next((m for m in cls.body if isinstance(m, ast.FunctionDef) and m.name == 'key'), None)
+    ob.require(key is not None and flds, 'key property of ' + clsname)
+    rets = [r for r in walk_local(key) if isinstance(r, ast.Return)]
+    r = one(rets, 'return in {}.key'.format(clsname), ob)
+    if pm('astuple(self)', r.value) is not None:
+        ob.site(rel, r, '{}.key = astuple(self) ({} fields)'.format(clsname, len(flds)))
+        return
+    val = r.value.args[0] if isinstance(r.value, ast.Call) and dotted(r.value.func) == 'tuple' and r.value.args else r.value
+    named = [e.attr for e in getattr(val, 'elts', []) if isinstance(e, ast.Attribute) and dotted(e.value) == 'self']
+    if sorted(named) != sorted(flds) or not isinstance(val, ast.Tuple):
+        missing = sorted(set(flds) - set(named))
+        dup = sorted({x for x in named if named.count(x) > 1})
+        ob.violate(rel, clsname + '.key', src(r.value)[:100], 'the key does not distinguish channels by every field (missing {}, repeated {}): '
+                   'transfers of different peers share one reassembly entry'.format(missing, dup), r)
+    else:
+        ob.site(rel, r, '{}.key names every field once'.format(clsname))
+
+
+def c20f(tree, ob):
+    from .c13 import c13g
+    c13g(tree, ob, BAGENT)
+    channel_key(tree, ob, BAGENT, 'EthernetChannel')
 
 
 def c20e(tree, ob):
